@@ -16,9 +16,11 @@ CONSTANTS
   LeafSet <- MC_LeafSet_S
   LimVals <- MC_LimVals_S
   LitPool <- MC_LitPool
-  QuotedIdents <- MC_QuotedIdents_S
+  QuotedIdents <- MC_QuotedIdents
   StrLits <- MC_StrLits
   TrickyStrs <- MC_TrickyStrs_S
+  UniIdents <- MC_UniIdents_S
+  UniStrs <- MC_UniStrs_S
   MaxDefs = 2
   MaxGroup = 2
   MaxItems = 2
